@@ -229,6 +229,18 @@ def run(ctx):
     rep = [i for i, nn in enumerate(io.nodes) if nn["k"] == "lit" and nn.get("lk") == "str" and "messages dropped" in nn["v"] and io.pos_of(i) is not None]
     ctx.check(bool(rep) and all(any(((k == ND and p is True) or (k in ("(%s == 0)" % ND, "(0 == %s)" % ND) and p is False) or (k == "(0 < %s)" % ND and p is True)) for k, p in fio2.guards(i)) for i in rep), "drops-reported", "guarded_by", io.loc(rep[0]) if rep else io.loc(),
               "the number of dropped messages is written to the sink when non-zero", "dropped messages are not reported in the output")
+    # the drop counter and its snapshot can hold any number of drops a flusher cycle can see: 64 bits, no narrowing on the way to the output
+    cls_ = P.classes.get("Oomd::Log::AsyncLogState", {})
+    fld_ = {x["name"]: x for x in cls_.get("fields", [])}
+    w_field = fld_.get("numDiscarded", {}).get("tw")
+    _, ndv = local_init(io, ND, must=False)
+    w_local = (ndv or {}).get("tw")
+    if ndv is not None and w_local is None:
+        w_local = {"size_t": "u64", "uint64_t": "u64", "unsigned long": "u64", "std::size_t": "u64", "uint32_t": "u32", "unsigned int": "u32", "uint16_t": "u16", "int": "i32"}.get((ndv.get("type") or "").replace("const ", ""))
+    ctx.check(w_field in ("u64", "i64") and w_local in ("u64", "i64"), "drop-counter-width", "E-TYPE (declared width)", io.loc(),
+              "numDiscarded and its snapshot are 64-bit",
+              "the drop counter is declared as %s and its snapshot as %s: it wraps after 2^16 / 2^32 drops within one flusher cycle (a stalled sink under a log "
+              "storm), and the reported number of dropped messages is then too small or the notice is missing" % (fld_.get("numDiscarded", {}).get("type"), (ndv or {}).get("type")))
     for w in local_writes(io, ND):
         ctx.check(io.text(write_rhs(io, w)) == "this->state_.numDiscarded" and LOCK in LA.held(io, w), "drop-count-snapshot", "provenance", io.loc(w),
                   "the reported count is a snapshot taken under the lock", "reported drop count is " + io.text(write_rhs(io, w)))
